@@ -2,39 +2,57 @@
 definitions over the model's `State`, regenerated into lean/Operon/Gen/TelomereTranslated.lean on every run.
 
 Every translated method is a function
-    Tr.<name> (cfg : Cfg) (s : State) (evs : List Ev) <params> : State × List Ev × Ret
-(state after, callbacks emitted so far, Python return value: `.unit` for None, `.bool b`).
+    Tr.<name> (cfg : Cfg) (s : State) (evs : List Ev) <params> : State × List Ev × T
+(state after, callbacks emitted so far, Python return value).  For the nine public methods T = `Ret` (`.unit` for
+None, `.bool b`); for helpers T is inferred from their `return`s (Unit, Bool, Nat, Int, Phase, Reason, Option Reason,
+Option Nat).  All definitions carry `@[simp]`, so the agreement proofs do not depend on which helpers exist or what they
+are called: helper calls are resolved through the call graph, wherever the helper is defined and whatever its name.
 
-Supported subset — nothing more:
-  * assignments / `+=` / `-=` to `self.<modelled field>` and to locals;
-  * `if/elif/else` with comparisons on ints, enum members, `is None`, `in (tuple of enum members)`, truthiness of
-    bool parameters / optional timestamps / optional timedeltas, `and` / `or` / `not`;
-  * `min`, `max`, integer `+ - *`, `a / b` only as the left side of a comparison with a class-level threshold
-    (translated by exact cross-multiplication with Operon.Gen.TelomereConsts), `x or default` on an optional int;
-  * `datetime.now()` -> `s.now`; timestamp difference -> microseconds (Nat, the model's monotone clock);
-    timedelta comparison -> integer comparison; arithmetic on an Optional is accepted only under a dominating
-    truthiness test of the same attribute;
-  * early `return`; `with self._lock:` is transparent (the lock is the subject of E3, not of this translation);
-  * console `print`, `self._log_event(...)` (payload must be call-free), `self._events.clear()`, writes to
-    `_terminated_at` are dropped; an `if` whose branches consist only of dropped statements is dropped;
-  * `self.<method>(args)` as a statement -> call of the translated method; `self.on_phase_change(a, b)` /
-    `self.on_senescence(r)` -> appended to the emitted-events list, `if self.on_phase_change:` is taken as true
-    (the events list IS what an installed callback sees).
-Anything else: the method's definition becomes `untranslatable "<construct>"`, which makes its agreement theorem
-`c09_translation_agrees_<method>` fail (fail closed).  Division by zero (`max_operations = 0` with positive length, not
-reachable) and negative clock differences are not represented: the cross-multiplied / truncated forms are total.
+What is understood (nothing more):
+  * assignments / annotated assignments / `+=` / `-=` to `self.<modelled field>` and to locals (a local may be
+    re-assigned, also inside a branch: flag-variable style and direct-return style translate to the same decisions);
+  * `if/elif/else` with comparisons on ints, enum members, `is None` / `is not None`, `in` / `not in` over a tuple
+    literal or over a module/class constant whose VALUE (read from the evaluated module) is a set/frozenset/tuple/
+    list of enum members; truthiness of bools, optional timestamps / timedeltas / ints; `and` / `or` / `not`;
+    a test that is decided at translation time (`x is None` on a local known to be None) selects its branch;
+  * `min`, `max`, integer `+ - *`; `a / b` only compared with a class-level threshold (exact cross-multiplication with
+    Operon.Gen.TelomereConsts); `x or default` on an optional int; module/class integer constants by value;
+  * `datetime.now()` -> `s.now`; timestamp difference -> microseconds; timedelta comparison -> integer comparison;
+    arithmetic on an Optional only under a dominating truthiness / `is not None` test (guard-clause form included);
+  * early `return`; `with self._lock:` transparent (the lock is E3's subject);
+  * calls of own methods: as a statement; as the whole value of an assignment / `return` / `if` test (also under `not`);
+    anywhere inside an expression when the callee is pure (touches neither state nor callbacks); missing trailing
+    arguments are filled from constant defaults; a public method may have extra trailing parameters with constant
+    defaults (the modelled call path uses the defaults);
+  * no-ops: docstrings, annotations, `pass`, console `print`, calls on a `logging.Logger` / the `logging` module (resolved
+    by value), `self._log_event(...)`, `self._events.<anything>(...)` — all with call-free arguments —, writes to
+    `_terminated_at` / `_events`, and an `if` all of whose branches are no-ops; the container type of `_events` is
+    irrelevant (`_log_event` is only checked to write no modelled field and to call no own method);
+  * `self.on_phase_change(a, b)` / `self.on_senescence(r)` -> appended to the emitted-events list; `if self.on_...:`
+    counts as true (the events list IS what an installed callback sees).
+Anything else: the method (and every method calling it) becomes `untranslatable "<construct (line)>"`, so exactly its
+agreement theorem `c09_translation_agrees_<method>` fails (fail closed).  The generated file is elaborated before it
+is written; if it does not build, all nine public methods are emitted as `untranslatable` instead, so the file always
+builds and only the agreement theorems are affected.
 """
 from __future__ import annotations
 
 import ast
+import copy
+import importlib.util
+import logging
+import os
+import subprocess
+import sys
+import tempfile
 from pathlib import Path
 
 CLASS = "Telomere"
 REL = "operon_ai/state/telomere.py"
 PUBLIC = ["start", "tick", "record_error", "heartbeat", "check_timeouts", "renew", "trigger_apoptosis", "terminate",
           "reset"]
+FIXED = {"tick": ["nat"], "renew": ["onat", "bool"], "trigger_apoptosis": ["str"]}
 
-# python attribute -> (lean field, type)
 FIELDS = {
     "_phase": ("phase", "phase"), "_telomere_length": ("length", "int"), "_error_count": ("errors", "nat"),
     "_operations_count": ("ops", "nat"), "_renewal_count": ("renewals", "nat"),
@@ -50,7 +68,12 @@ PHASES = {"NASCENT": "Phase.nascent", "ACTIVE": "Phase.active", "SENESCENT": "Ph
           "APOPTOTIC": "Phase.apoptotic", "TERMINATED": "Phase.terminated"}
 REASONS = {"TELOMERE_DEPLETION": "Reason.depletion", "ERROR_ACCUMULATION": "Reason.errors", "TIMEOUT": "Reason.timeout",
            "IDLE_TIMEOUT": "Reason.idle"}
-LEAN_T = {"nat": "Nat", "onat": "Option Nat", "bool": "Bool", "reason": "Reason", "phase": "Phase", "str": "Unit"}
+LEAN_T = {"nat": "Nat", "int": "Int", "onat": "Option Nat", "bool": "Bool", "reason": "Reason", "phase": "Phase",
+          "str": "Unit", "time": "Nat", "dur": "Nat", "otime": "Option Nat", "odur": "Option Nat",
+          "oreason": "Option Reason", "unit": "Unit", "ret": "Ret"}
+OPT_OF = {"reason": "oreason", "time": "otime", "nat": "onat", "dur": "odur"}
+BASE_OF = {v: k for k, v in OPT_OF.items()}
+DEFAULT_OF = {"oreason": "Reason.depletion", "otime": "0", "onat": "0", "odur": "0"}
 
 
 class Unsupported(Exception):
@@ -67,7 +90,7 @@ def is_self(node, attr=None):
 
 
 def lname(method):
-    return method.lstrip("_")
+    return method.strip("_") or "m"
 
 
 def param_type(ann):
@@ -75,43 +98,234 @@ def param_type(ann):
         return None
     src = ast.unparse(ann).replace(" ", "")
     return {"int": "nat", "int|None": "onat", "Optional[int]": "onat", "bool": "bool", "str": "str",
-            "SenescenceReason": "reason", "LifecyclePhase": "phase"}.get(src)
+            "SenescenceReason": "reason", "LifecyclePhase": "phase", "datetime": "time",
+            "SenescenceReason|None": "oreason", "Optional[SenescenceReason]": "oreason"}.get(src)
+
+
+def load_module(path: Path):
+    """Evaluate the module under translation (stdlib imports only) to resolve constants by VALUE; None on failure."""
+    try:
+        name = f"_py2lean_telomere_{abs(hash(str(path)))}"
+        spec = importlib.util.spec_from_file_location(name, str(path))
+        mod = importlib.util.module_from_spec(spec)
+        sys.modules[name] = mod          # dataclasses look the module up while the class body runs
+        try:
+            spec.loader.exec_module(mod)
+        finally:
+            sys.modules.pop(name, None)
+        return mod
+    except BaseException:   # noqa
+        return None
 
 
 class Translator:
-    def __init__(self, src: str):
+    def __init__(self, src: str, mod=None):
         self.tree = ast.parse(src)
+        self.mod = mod
         cls = [n for n in self.tree.body if isinstance(n, ast.ClassDef) and n.name == CLASS]
         if len(cls) != 1:
             raise Unsupported("class Telomere not found exactly once")
-        self.fns = {n.name: n for n in cls[0].body if isinstance(n, ast.FunctionDef)}
-        self.sigs: dict[str, list] = {}     # method -> [(pyname, type)]
-        self.needed: list[str] = []         # translation order is fixed later (callees first)
-        self.calls: dict[str, set] = {}
-        self.cur = None
+        self.cls = cls[0]
+        self.fns = {n.name: n for n in self.cls.body if isinstance(n, ast.FunctionDef)}
+        self.done: dict[str, dict] = {}      # method -> {params, rtype, code, pure, calls} | {"error": ...}
+        self.stack: list[dict] = []
+        self.tmp = 0
+        # names that may be resolved by value: bound exactly once at module level / class level, never rebound
+        self.mod_once = self._bound_once(self.tree.body)
+        self.cls_once = self._bound_once(self.cls.body)
+        self.rebound = set()
+        for n in ast.walk(self.tree):
+            if isinstance(n, (ast.Global, ast.Nonlocal)):
+                self.rebound |= set(n.names)
+            if isinstance(n, ast.Attribute) and isinstance(n.ctx, (ast.Store, ast.Del)):
+                self.rebound.add(n.attr)
+        for fn in ast.walk(self.cls):
+            if isinstance(fn, (ast.FunctionDef, ast.Lambda)):
+                for n in ast.walk(fn):
+                    if isinstance(n, ast.Name) and isinstance(n.ctx, (ast.Store, ast.Del)):
+                        pass        # locals shadowing a module constant are looked up in env first
 
-    # ---------------------------------------------------------------------------------------------- signatures
-    def sig(self, m):
-        if m in self.sigs:
-            return self.sigs[m]
+    @staticmethod
+    def _bound_once(body):
+        cnt = {}
+        for st in body:
+            tg = []
+            if isinstance(st, ast.Assign):
+                tg = st.targets
+            elif isinstance(st, (ast.AnnAssign, ast.AugAssign)):
+                tg = [st.target]
+            for t in tg:
+                for n in ast.walk(t):
+                    if isinstance(n, ast.Name):
+                        cnt[n.id] = cnt.get(n.id, 0) + 1
+        return {k for k, v in cnt.items() if v == 1}
+
+    # ---------------------------------------------------------------------------------------------- constants by value
+    def const_value(self, kind, name, node):
+        """('phaseset', [lean ctor...]) | (code, 'nat') for a module-level / class-level constant, else Unsupported"""
+        if self.mod is None:
+            bad(node, f"constant {name}: the module could not be evaluated")
+        if name in self.rebound:
+            bad(node, f"constant {name} is rebound somewhere")
+        if kind == "module":
+            if name not in self.mod_once or not hasattr(self.mod, name):
+                bad(node, f"name {name}")
+            v = getattr(self.mod, name)
+        else:
+            c = getattr(self.mod, CLASS, None)
+            if name not in self.cls_once or c is None or name not in vars(c):
+                bad(node, f"attribute self.{name}")
+            v = vars(c)[name]
+        if isinstance(v, bool):
+            return ("true" if v else "false"), "bool"
+        if isinstance(v, int):
+            return (str(v), "nat") if v >= 0 else (f"({v} : Int)", "int")
+        if isinstance(v, (frozenset, set, tuple, list)):
+            out = []
+            for e in v:
+                cn = type(e).__name__
+                if cn == "LifecyclePhase" and getattr(e, "name", None) in PHASES:
+                    out.append(("phase", PHASES[e.name]))
+                elif cn == "SenescenceReason" and getattr(e, "name", None) in REASONS:
+                    out.append(("reason", REASONS[e.name]))
+                else:
+                    bad(node, f"constant {name} contains {e!r}")
+            kinds = {k for k, _ in out}
+            if len(kinds) > 1:
+                bad(node, f"constant {name} mixes enum types")
+            return sorted(c for _, c in out), ("set:" + (kinds.pop() if kinds else "phase"))
+        bad(node, f"constant {name} of type {type(v).__name__}")
+
+    def is_logger(self, node):
+        """expression rooted at a module-level name whose VALUE is a logging.Logger or the logging module"""
+        while isinstance(node, ast.Attribute):
+            node = node.value
+        if not isinstance(node, ast.Name) or self.mod is None or node.id in self.rebound:
+            return False
+        v = getattr(self.mod, node.id, None)
+        return isinstance(v, (logging.Logger, logging.LoggerAdapter)) or v is logging
+
+    # ---------------------------------------------------------------------------------------------- methods
+    def info(self, m, node=None):
+        """translate method m on demand (memoised)"""
+        if m in self.done:
+            d = self.done[m]
+            if "error" in d:
+                raise Unsupported(f"calls an untranslatable method ({m})")
+            return d
+        if any(c["method"] == m for c in self.stack):
+            raise Unsupported(f"recursion through {m}")
         fn = self.fns.get(m)
         if fn is None:
             raise Unsupported(f"method {m} not found")
+        try:
+            params, extra = self.signature(m, fn)
+            ctx = {"method": m, "rtype": None, "collect": set(), "pure": True, "calls": set()}
+            self.stack.append(ctx)
+            try:
+                if m in PUBLIC:
+                    ctx["rtype"] = "ret"
+                else:
+                    self.body(fn.body, self.env0(params, extra), 2)
+                    ctx["rtype"] = self.unify(ctx["collect"], fn)
+                    ctx["pure"] = True
+                code = self.body(fn.body, self.env0(params, extra), 2)
+            finally:
+                self.stack.pop()
+            d = {"params": params, "rtype": ctx["rtype"], "code": code, "pure": ctx["pure"], "calls": ctx["calls"],
+                 "defaults": self.defaults(fn, len(params))}
+        except Unsupported as e:
+            self.done[m] = {"error": str(e), "own": True}
+            raise
+        self.done[m] = d
+        return d
+
+    def signature(self, m, fn):
         a = fn.args
         if a.vararg or a.kwarg or a.kwonlyargs or a.posonlyargs or fn.decorator_list:
             bad(fn, f"signature of {m}")
         ps = []
         for arg in a.args[1:]:
-            t = param_type(arg.annotation)
-            if t is None and m == "_enter_senescence":
-                t = "reason"
-            if t is None and m == "_transition_to":
-                t = "phase"
+            ps.append((arg.arg, param_type(arg.annotation), arg))
+        extra = []
+        if m in PUBLIC:
+            want = FIXED.get(m, [])
+            head, tail = ps[:len(want)], ps[len(want):]
+            if [t for _, t, _ in head] != want:
+                bad(fn, f"parameters of {m} differ from the modelled ones")
+            # extra trailing parameters: the modelled call path passes nothing, so they take their constant defaults
+            nd = len(a.defaults)
+            for i, (name, _, arg) in enumerate(tail):
+                k = len(a.args) - 1 - (len(want) + i)         # distance from the end
+                if k >= nd:
+                    bad(fn, f"extra parameter {name} of {m} has no default")
+                dv = a.defaults[nd - 1 - k]
+                if not isinstance(dv, ast.Constant):
+                    bad(fn, f"default of extra parameter {name} is not a constant")
+                extra.append((name, dv))
+            ps = head
+        for name, t, arg in ps:
             if t is None:
-                bad(fn, f"parameter {arg.arg} of {m}: unsupported annotation")
-            ps.append((arg.arg, t))
-        self.sigs[m] = ps
-        return ps
+                bad(fn, f"parameter {name} of {m}: unsupported annotation")
+        return [(n, t) for n, t, _ in ps], extra
+
+    def defaults(self, fn, nparams):
+        """constant defaults per parameter position (None where there is none)"""
+        a = fn.args
+        out = [None] * nparams
+        nd = len(a.defaults)
+        allp = a.args[1:]
+        for i in range(min(nparams, len(allp))):
+            k = len(allp) - 1 - i
+            if k < nd and isinstance(a.defaults[nd - 1 - k], ast.Constant):
+                out[i] = a.defaults[nd - 1 - k]
+        return out
+
+    def env0(self, params, extra):
+        locs = {}
+        for name, t in params:
+            locs[name] = ("()" if t == "str" else f"p_{name}", t)
+        env = {"locals": locs, "nonnull": set(), "strict": True}
+        for name, dv in extra:
+            locs[name] = self.ex(dv, env)
+        return env
+
+    def unify(self, types, node):
+        ts = set(types)
+        if not ts or ts == {"none"}:
+            return "unit"
+        if len(ts) == 1:
+            t = next(iter(ts))
+            if t in LEAN_T and t not in ("str", "ret"):
+                return t
+        if ts <= {"nat", "int"}:
+            return "int"
+        base = ts - {"none"}
+        if len(base) == 1:
+            b = next(iter(base))
+            if b in OPT_OF:
+                return OPT_OF[b]
+            if b in BASE_OF:
+                return b
+        if len(base) == 2:
+            for b, o in OPT_OF.items():
+                if base == {b, o}:
+                    return o
+        bad(node, f"return values of types {sorted(ts)}")
+
+    def coerce(self, val, target, node, what="value"):
+        c, t = val
+        if t == target:
+            return c
+        if target == "int" and t == "nat":
+            return f"(({c} : Nat) : Int)"
+        if target in BASE_OF and t == BASE_OF[target]:
+            return f"(some {c})"
+        if target in BASE_OF and t == "none":
+            return "none"
+        if target == "time" and t == "dur" or target == "dur" and t == "time":
+            bad(node, f"{what}: time/duration confusion")
+        bad(node, f"{what} of type {t} where {target} is expected")
 
     # ---------------------------------------------------------------------------------------------- expressions
     def coerce_int(self, c, t):
@@ -122,13 +336,45 @@ class Translator:
         return None
 
     def num2(self, a, b, node):
-        """two numeric operands brought to a common type"""
         (ca, ta), (cb, tb) = a, b
         if ta == tb and ta in ("nat", "int", "dur"):
             return ca, cb, ta
         if {ta, tb} <= {"nat", "int"}:
             return self.coerce_int(ca, ta), self.coerce_int(cb, tb), "int"
         bad(node, f"operands of types {ta}/{tb}")
+
+    def call_args(self, m, call, env):
+        d = self.info(m, call)
+        ps = d["params"]
+        if call.keywords:
+            names = [n for n, _ in ps]
+            extra = {}
+            for k in call.keywords:
+                if k.arg is None or k.arg not in names or names.index(k.arg) < len(call.args):
+                    bad(call, f"keyword argument in a call of {m}")
+                extra[names.index(k.arg)] = k.value
+        else:
+            extra = {}
+        if len(call.args) > len(ps):
+            bad(call, f"call of {m} with too many arguments")
+        args = []
+        for i, (pn, pt) in enumerate(ps):
+            if i < len(call.args):
+                node = call.args[i]
+            elif i in extra:
+                node = extra[i]
+            elif d["defaults"][i] is not None:
+                node = d["defaults"][i]
+            else:
+                bad(call, f"call of {m}: no argument for {pn}")
+            if pt == "str":
+                if not self.callfree([node]):
+                    bad(call, "string argument with a call inside")
+                args.append("()")
+                continue
+            c = self.coerce(self.ex(node, dict(env, strict=False)), pt, call, f"argument {pn} of {m}")
+            args.append(c if c.startswith("(") or " " not in c else f"({c})")
+        return d, " ".join([f"Tr.{lname(m)}", "cfg", "s", "evs"] + args)
 
     def ex(self, n, env):
         """value expression -> (lean code, type)"""
@@ -142,24 +388,29 @@ class Translator:
             bad(n, f"constant {n.value!r}")
         if isinstance(n, ast.Name):
             if n.id in env["locals"]:
-                return env["locals"][n.id]
-            bad(n, f"name {n.id}")
+                c, t = env["locals"][n.id]
+                if t in DEFAULT_OF and ("local:" + n.id) in env["nonnull"]:
+                    return f"({c}.getD {DEFAULT_OF[t]})", BASE_OF[t]
+                return c, t
+            return self.const_value("module", n.id, n)
         if isinstance(n, ast.Attribute):
             if is_self(n):
                 if n.attr in FIELDS:
                     f, t = FIELDS[n.attr]
-                    if t in ("otime",) and n.attr in env["nonnull"]:
-                        return f"(s.{f}.getD 0)", "time"
+                    if t in DEFAULT_OF and n.attr in env["nonnull"]:
+                        return f"(s.{f}.getD {DEFAULT_OF[t]})", BASE_OF[t]
                     return f"s.{f}", t
                 if n.attr in CFG:
                     c, t = CFG[n.attr]
-                    if t == "odur" and n.attr in env["nonnull"]:
-                        return f"({c}.getD 0)", "dur"
+                    if t in DEFAULT_OF and n.attr in env["nonnull"]:
+                        return f"({c}.getD {DEFAULT_OF[t]})", BASE_OF[t]
                     return c, t
                 if n.attr in CONSTS:
                     k = CONSTS[n.attr]
                     return (f"Gen.TelomereConsts.{k}Num", f"Gen.TelomereConsts.{k}Den"), "cfrac"
-                bad(n, f"attribute self.{n.attr}")
+                return self.const_value("class", n.attr, n)
+            if isinstance(n.value, ast.Name) and n.value.id == CLASS and n.attr not in CONSTS:
+                return self.const_value("class", n.attr, n)
             if isinstance(n.value, ast.Name) and n.value.id == "LifecyclePhase" and n.attr in PHASES:
                 return PHASES[n.attr], "phase"
             if isinstance(n.value, ast.Name) and n.value.id == "SenescenceReason" and n.attr in REASONS:
@@ -193,124 +444,191 @@ class Translator:
             if (isinstance(f, ast.Attribute) and f.attr == "now" and isinstance(f.value, ast.Name)
                     and f.value.id == "datetime" and not n.args and not n.keywords):
                 return "s.now", "time"
+            if is_self(f) and f.attr in self.fns:
+                d, app = self.call_args(f.attr, n, env)
+                if not d["pure"]:
+                    bad(n, f"call of self.{f.attr}, which changes state or emits callbacks, inside an expression")
+                if d["rtype"] in ("ret", "unit"):
+                    bad(n, f"value of self.{f.attr}() used ({d['rtype']})")
+                self.stack[-1]["calls"].add(f.attr)
+                return f"({app}).2.2", d["rtype"]
             bad(n, f"call {ast.unparse(f)}(...) in an expression")
         if isinstance(n, ast.BoolOp) and isinstance(n.op, ast.Or) and len(n.values) == 2:
-            a, b = self.ex(n.values[0], env), self.ex(n.values[1], env)
+            try:
+                a, b = self.ex(n.values[0], env), self.ex(n.values[1], dict(env, strict=False))
+            except Unsupported:
+                a = b = (None, None)
             if a[1] == "onat" and b[1] == "nat":
                 return f"(pyOr {a[0]} {b[0]})", "nat"
-            bad(n, f"`or` on {a[1]}/{b[1]} as a value")
         if isinstance(n, (ast.Compare, ast.BoolOp, ast.UnaryOp)):
-            return f"(decide {self.prop(n, env)})", "bool"
+            p = self.prop(n, env)
+            return ("true" if p == "True" else "false" if p == "False" else f"(decide {p})"), "bool"
         bad(n, f"expression {type(n).__name__}")
 
     def truthy(self, n, env):
-        """truthiness of a non-boolean-operator expression, as a Lean Prop"""
         if is_self(n) and n.attr in ("on_phase_change", "on_senescence"):
             return "True"
         c, t = self.ex(n, env)
         if t == "bool":
-            return f"({c} = true)"
-        if t == "otime":
+            return "True" if c == "true" else "False" if c == "false" else f"({c} = true)"
+        if t in ("otime", "oreason"):
             return f"({c} ≠ none)"
-        if t == "odur":
+        if t in ("odur", "onat"):
             return f"({c} ≠ none ∧ {c} ≠ some 0)"
-        if t == "onat":
-            return f"({c} ≠ none ∧ {c} ≠ some 0)"
-        if t in ("nat", "dur"):
+        if t in ("nat", "dur", "int"):
             return f"({c} ≠ 0)"
-        if t == "int":
-            return f"({c} ≠ 0)"
+        if t in ("time", "reason", "phase"):
+            return "True"
+        if t == "none":
+            return "False"
         bad(n, f"truthiness of a value of type {t}")
 
     def prop(self, n, env):
         if isinstance(n, ast.BoolOp):
-            op = " ∧ " if isinstance(n.op, ast.And) else " ∨ "
-            # `a and b`: operands to the right of a truthiness test of an optional see it as non-null
+            isand = isinstance(n.op, ast.And)
             parts, env2 = [], env
-            for v in n.values:
-                parts.append(self.prop(v, env2))
-                if isinstance(n.op, ast.And):
-                    env2 = self.with_nonnull(env2, [v])
-            return "(" + op.join(parts) + ")"
+            for i, v in enumerate(n.values):
+                parts.append(self.prop(v, env2 if i == 0 else dict(env2, strict=False)))
+                env2 = self.refine(env2, v, isand)      # `a and b`: b sees a true; `a or b`: b sees a false
+            absorbing, neutral = ("False", "True") if isand else ("True", "False")
+            if absorbing in parts:
+                return absorbing
+            parts = [p for p in parts if p != neutral]
+            if not parts:
+                return neutral
+            return parts[0] if len(parts) == 1 else "(" + (" ∧ " if isand else " ∨ ").join(parts) + ")"
         if isinstance(n, ast.UnaryOp) and isinstance(n.op, ast.Not):
-            return f"(¬ {self.prop(n.operand, env)})"
+            p = self.prop(n.operand, env)
+            return "False" if p == "True" else "True" if p == "False" else f"(¬ {p})"
         if isinstance(n, ast.Compare):
             if len(n.ops) != 1:
                 bad(n, "chained comparison")
             op, l, r = n.ops[0], n.left, n.comparators[0]
             if isinstance(op, (ast.In, ast.NotIn)):
-                if not isinstance(r, ast.Tuple) or not r.elts:
-                    bad(n, "`in` on something that is not a tuple literal")
                 cl, tl = self.ex(l, env)
-                alts = []
-                for e in r.elts:
-                    ce, te = self.ex(e, env)
-                    if te != tl or tl not in ("phase", "reason"):
-                        bad(n, f"`in` over {tl}/{te}")
-                    alts.append(f"{cl} = {ce}")
-                p = "(" + " ∨ ".join(alts) + ")"
-                return p if isinstance(op, ast.In) else f"(¬ {p})"
+                if tl not in ("phase", "reason"):
+                    bad(n, f"`in` on a value of type {tl}")
+                if isinstance(r, (ast.Tuple, ast.List, ast.Set)):
+                    members = []
+                    for e in r.elts:
+                        ce, te = self.ex(e, env)
+                        if te != tl:
+                            bad(n, f"`in` over {tl}/{te}")
+                        members.append(ce)
+                else:
+                    members, ts = self.ex(r, env)
+                    if ts != "set:" + tl:
+                        bad(n, f"`in` on something that is not a collection of {tl} constants")
+                p = "(" + " ∨ ".join(f"{cl} = {m}" for m in members) + ")" if members else "False"
+                if isinstance(op, ast.In):
+                    return p
+                return "True" if p == "False" else f"(¬ {p})"
             a, b = self.ex(l, env), self.ex(r, env)
             if isinstance(op, (ast.Is, ast.IsNot)):
-                if b[1] != "none" or a[1] not in ("otime", "odur", "onat", "oreason"):
-                    bad(n, "`is` other than `<optional> is None`")
-                return f"({a[0]} = none)" if isinstance(op, ast.Is) else f"({a[0]} ≠ none)"
+                if b[1] != "none":
+                    bad(n, "`is` other than `<value> is None`")
+                if a[1] == "none":
+                    p = "True"
+                elif a[1] in DEFAULT_OF:
+                    p = f"({a[0]} = none)"
+                elif a[1] in ("reason", "phase", "time", "nat", "int", "bool", "dur"):
+                    p = "False"
+                else:
+                    bad(n, f"`is None` on a value of type {a[1]}")
+                if isinstance(op, ast.Is):
+                    return p
+                return "False" if p == "True" else "True" if p == "False" else f"(¬ {p})"
             sym = {ast.Eq: "=", ast.NotEq: "≠", ast.Lt: "<", ast.LtE: "≤", ast.Gt: ">", ast.GtE: "≥"}.get(type(op))
             if sym is None:
                 bad(n, f"comparison {type(op).__name__}")
-            if a[1] in ("phase", "reason") and a[1] == b[1] and sym in ("=", "≠"):
+            if a[1] in ("phase", "reason", "bool") and a[1] == b[1] and sym in ("=", "≠"):
                 return f"({a[0]} {sym} {b[0]})"
+            if sym in ("=", "≠") and a[1] in ("oreason",) and b[1] in ("reason", "none", "oreason") or \
+                    sym in ("=", "≠") and b[1] in ("oreason",) and a[1] in ("reason", "none"):
+                ca = self.coerce(a, "oreason", n, "comparison operand")
+                cb = self.coerce(b, "oreason", n, "comparison operand")
+                return f"({ca} {sym} {cb})"
             if a[1] == "frac" and b[1] == "cfrac" and sym in ("<", "≤", ">", "≥"):
                 (num, den), (cn, cd) = a[0], b[0]
-                # num/den  sym  cn/cd   <=>   num*cd  sym  cn*den      (den, cd > 0)
                 return f"({num} * (({cd} : Nat) : Int) {sym} (({cn} : Nat) : Int) * {den})"
+            if a[1] == "cfrac" and b[1] == "frac" and sym in ("<", "≤", ">", "≥"):
+                (cn, cd), (num, den) = a[0], b[0]
+                return f"((({cn} : Nat) : Int) * {den} {sym} {num} * (({cd} : Nat) : Int))"
             if a[1] in ("nat", "int", "dur") and b[1] in ("nat", "int", "dur"):
                 ca, cb, _ = self.num2(a, b, n)
                 return f"({ca} {sym} {cb})"
             bad(n, f"comparison of {a[1]} with {b[1]}")
         return self.truthy(n, env)
 
-    def with_nonnull(self, env, tests):
-        """attributes whose truthiness is established by the given conjunct tests"""
-        nn = set(env["nonnull"])
-        for t in tests:
-            if isinstance(t, ast.BoolOp) and isinstance(t.op, ast.And):
-                nn |= self.with_nonnull(env, t.values)["nonnull"]
-            elif is_self(t) and (t.attr in FIELDS and FIELDS[t.attr][1] == "otime" or t.attr in CFG and CFG[t.attr][1] == "odur"):
-                nn.add(t.attr)
-        return dict(env, nonnull=nn)
+    # --- what a test establishes about Optionals ---------------------------------------------------------------
+    def opt_key(self, n, env):
+        if is_self(n) and (n.attr in FIELDS and FIELDS[n.attr][1] in DEFAULT_OF or n.attr in CFG and CFG[n.attr][1] in DEFAULT_OF):
+            return n.attr
+        if isinstance(n, ast.Name) and n.id in env["locals"] and env["locals"][n.id][1] in DEFAULT_OF:
+            return "local:" + n.id
+        return None
+
+    def established(self, test, env, truth):
+        """keys of Optionals known to be non-None when `test` evaluates to `truth`"""
+        out = set()
+        if isinstance(test, ast.UnaryOp) and isinstance(test.op, ast.Not):
+            return self.established(test.operand, env, not truth)
+        if isinstance(test, ast.BoolOp):
+            if isinstance(test.op, ast.And) == truth:       # all conjuncts true / all disjuncts false
+                for v in test.values:
+                    out |= self.established(v, env, truth)
+            return out
+        if isinstance(test, ast.Compare) and len(test.ops) == 1 and isinstance(test.ops[0], (ast.Is, ast.IsNot)) \
+                and isinstance(test.comparators[0], ast.Constant) and test.comparators[0].value is None:
+            k = self.opt_key(test.left, env)
+            if k and (isinstance(test.ops[0], ast.IsNot) == truth):
+                out.add(k)
+            return out
+        k = self.opt_key(test, env)
+        if k and truth:
+            out.add(k)
+        return out
+
+    def refine(self, env, test, truth):
+        return dict(env, nonnull=set(env["nonnull"]) | self.established(test, env, truth))
 
     # ---------------------------------------------------------------------------------------------- statements
-    def droppable(self, st):
+    def noop(self, st):
         if isinstance(st, ast.Pass):
             return True
         if isinstance(st, ast.Expr):
             v = st.value
-            if isinstance(v, ast.Constant) and isinstance(v.value, str):
+            if isinstance(v, ast.Constant):
                 return True
             if isinstance(v, ast.Call):
                 f = v.func
+                args = v.args + [k.value for k in v.keywords]
                 if isinstance(f, ast.Name) and f.id == "print":
-                    return self.callfree(v.args + [k.value for k in v.keywords], allow_int=True)
+                    return self.callfree(args, allow_fmt=True)
                 if is_self(f, "_log_event"):
-                    return self.callfree(v.args + [k.value for k in v.keywords])
-                if (isinstance(f, ast.Attribute) and f.attr == "clear" and is_self(f.value, "_events")
-                        and not v.args):
-                    return True
+                    return self.callfree(args)
+                if isinstance(f, ast.Attribute) and is_self(f.value, "_events"):
+                    return self.callfree(args)
+                if isinstance(f, ast.Attribute) and self.is_logger(f.value):
+                    return self.callfree(args, allow_fmt=True)
             return False
-        if isinstance(st, ast.Assign) and len(st.targets) == 1 and is_self(st.targets[0]) \
-                and st.targets[0].attr in DROPPED_FIELDS:
-            return self.callfree([st.value], allow_now=True)
+        if isinstance(st, (ast.Assign, ast.AnnAssign)):
+            tg = st.targets if isinstance(st, ast.Assign) else [st.target]
+            if len(tg) == 1 and is_self(tg[0]) and tg[0].attr in DROPPED_FIELDS:
+                return st.value is None or self.callfree([st.value], allow_now=True)
+            if isinstance(st, ast.AnnAssign) and st.value is None:
+                return True
+            return False
         if isinstance(st, ast.If):
-            return self.pure_test(st.test) and all(self.droppable(x) for x in st.body + st.orelse)
+            return self.callfree([st.test]) and all(self.noop(x) for x in st.body + st.orelse)
         return False
 
-    def callfree(self, nodes, allow_int=False, allow_now=False):
+    def callfree(self, nodes, allow_fmt=False, allow_now=False):
         for n in nodes:
             for c in ast.walk(n):
                 if isinstance(c, ast.Call):
                     f = c.func
-                    if allow_int and isinstance(f, ast.Name) and f.id in ("int", "str", "round"):
+                    if allow_fmt and isinstance(f, ast.Name) and f.id in ("int", "str", "round", "repr", "float", "len"):
                         continue
                     if allow_now and isinstance(f, ast.Attribute) and f.attr == "now":
                         continue
@@ -319,62 +637,107 @@ class Translator:
                     return False
         return True
 
-    def pure_test(self, n):
-        return self.callfree([n])
+    def impure_call(self, n):
+        """n is `self.m(...)` (possibly under `not`) with an impure / unit-returning callee -> the Call node"""
+        inner = n
+        while isinstance(inner, ast.UnaryOp) and isinstance(inner.op, ast.Not):
+            inner = inner.operand
+        if isinstance(inner, ast.Call) and is_self(inner.func) and inner.func.attr in self.fns:
+            if not self.info(inner.func.attr, inner)["pure"]:
+                return inner
+        return None
+
+    def hoist(self, st, field, env, pad):
+        """if the principal expression of `st` is an impure own-method call, bind it first; returns (lines, st', env')"""
+        expr = getattr(st, field)
+        if expr is None:
+            return [], st, env
+        call = self.impure_call(expr)
+        if call is None:
+            return [], st, env
+        d, app = self.call_args(call.func.attr, call, env)
+        if d["rtype"] in ("ret", "unit"):
+            bad(call, f"value of self.{call.func.attr}() used ({d['rtype']})")
+        self.tmp += 1
+        tname = f"h{self.tmp}__"
+        self.stack[-1]["calls"].add(call.func.attr)
+        self.stack[-1]["pure"] = False
+        lines = [f"{pad}let r := {app}", f"{pad}let s : State := r.1", f"{pad}let evs : List Ev := r.2.1",
+                 f"{pad}let v_{tname} := r.2.2"]
+        loc = dict(env["locals"]); loc[tname] = (f"v_{tname}", d["rtype"])
+        env2 = dict(env, locals=loc, nonnull={k for k in env["nonnull"] if k.startswith("local:")})
+
+        e2 = ast.copy_location(ast.Name(id=tname, ctx=ast.Load()), call)
+        e = expr
+        wraps = 0
+        while e is not call:            # impure_call only looks through `not`
+            e = e.operand
+            wraps += 1
+        for _ in range(wraps):
+            e2 = ast.copy_location(ast.UnaryOp(op=ast.Not(), operand=e2), call)
+        st2 = copy.copy(st)
+        setattr(st2, field, e2)
+        return lines, st2, env2
+
+    def emit_return(self, val, node, pad):
+        ctx = self.stack[-1]
+        rt = ctx["rtype"]
+        c, t = val
+        if rt is None:
+            ctx["collect"].add(t)
+            return f"{pad}(s, evs, ())"
+        if rt == "ret":
+            if t == "none":
+                return f"{pad}(s, evs, Ret.unit)"
+            if t == "bool":
+                return f"{pad}(s, evs, Ret.bool {c})"
+            bad(node, f"return of a {t} from a public method")
+        if rt == "unit":
+            return f"{pad}(s, evs, ())"
+        return f"{pad}(s, evs, {self.coerce(val, rt, node, 'return value')})"
 
     def assign_field(self, attr, val, node):
         f, ft = FIELDS[attr]
-        c, t = val
-        if ft == t and t in ("phase", "nat", "int", "oreason", "otime"):
-            pass
-        elif ft == "int" and t == "nat":
-            c = self.coerce_int(c, t)
-        elif ft == "otime" and t == "time":
-            c = f"(some {c})"
-        elif ft == "oreason" and t == "reason":
-            c = f"(some {c})"
-        elif ft in ("otime", "oreason") and t == "none":
-            c = "none"
-        else:
-            bad(node, f"assignment of a {t} to self.{attr} ({ft})")
-        return f"let s : State := {{ s with {f} := {c} }}"
+        return f"let s : State := {{ s with {f} := {self.coerce(val, ft, node, 'assignment to self.' + attr)} }}"
 
     def body(self, stmts, env, ind):
-        """Lean term for the statement list (continuation = the rest of the list)"""
         pad = "  " * ind
+        ctx = self.stack[-1]
         if not stmts:
-            return f"{pad}(s, evs, Ret.unit)"
+            return self.emit_return(("none", "none"), None, pad)
         st, rest = stmts[0], stmts[1:]
-        if self.droppable(st):
+        if self.noop(st):
             return self.body(rest, env, ind)
         if isinstance(st, ast.With):
             if len(st.items) == 1 and is_self(st.items[0].context_expr, "_lock") and st.items[0].optional_vars is None:
                 return self.body(st.body + rest, env, ind)
             bad(st, "`with` on something other than self._lock")
         if isinstance(st, ast.Return):
-            if st.value is None or (isinstance(st.value, ast.Constant) and st.value.value is None):
-                return f"{pad}(s, evs, Ret.unit)"
-            c, t = self.ex(st.value, env)
-            if t != "bool":
-                bad(st, f"return of a {t}")
-            return f"{pad}(s, evs, Ret.bool {c})"
+            pre, st, env = self.hoist(st, "value", env, pad)
+            if st.value is None:
+                out = self.emit_return(("none", "none"), st, pad)
+            else:
+                out = self.emit_return(self.ex(st.value, env), st, pad)
+            return "\n".join(pre + [out])
         if isinstance(st, ast.If):
             test = st.test
             if is_self(test) and test.attr in ("on_phase_change", "on_senescence") and not st.orelse:
                 return self.body(st.body + rest, env, ind)
+            pre, st, env = self.hoist(st, "test", env, pad)
+            test = st.test
             p = self.prop(test, env)
-            env_t = self.with_nonnull(env, [test])
-            a = self.body(st.body + rest, env_t, ind + 1)
-            b = self.body(st.orelse + rest, env, ind + 1)
-            return f"{pad}if {p} then\n{a}\n{pad}else\n{b}"
-        if isinstance(st, (ast.Assign, ast.AugAssign)):
-            if isinstance(st, ast.Assign):
-                if len(st.targets) != 1:
-                    bad(st, "multiple assignment targets")
-                tgt, val = st.targets[0], self.ex(st.value, env)
-            else:
+            if p == "True":
+                return "\n".join(pre + [self.body(st.body + rest, self.refine(env, test, True), ind)])
+            if p == "False":
+                return "\n".join(pre + [self.body(st.orelse + rest, self.refine(env, test, False), ind)])
+            a = self.body(st.body + rest, self.refine(env, test, True), ind + 1)
+            b = self.body(st.orelse + rest, self.refine(env, test, False), ind + 1)
+            return "\n".join(pre + [f"{pad}if {p} then\n{a}\n{pad}else\n{b}"])
+        if isinstance(st, (ast.Assign, ast.AugAssign, ast.AnnAssign)):
+            pre, st, env = self.hoist(st, "value", env, pad)
+            if isinstance(st, ast.AugAssign):
                 tgt = st.target
-                cur = self.ex(ast.copy_location(ast.Attribute(value=tgt.value, attr=tgt.attr, ctx=ast.Load()), tgt)
+                cur = self.ex(ast.Attribute(value=tgt.value, attr=tgt.attr, ctx=ast.Load())
                               if isinstance(tgt, ast.Attribute) else ast.Name(id=tgt.id, ctx=ast.Load()), env)
                 rhs = self.ex(st.value, env)
                 if isinstance(st.op, ast.Add):
@@ -389,61 +752,55 @@ class Translator:
                     val = (f"({ca} - {cb})", "int")
                 else:
                     bad(st, f"augmented assignment {type(st.op).__name__}")
+            else:
+                tg = st.targets if isinstance(st, ast.Assign) else [st.target]
+                if len(tg) != 1:
+                    bad(st, "multiple assignment targets")
+                tgt, val = tg[0], self.ex(st.value, env)
             if is_self(tgt):
                 if tgt.attr not in FIELDS:
                     bad(st, f"assignment to self.{tgt.attr}")
+                ctx["pure"] = False
                 line = self.assign_field(tgt.attr, val, st)
                 env2 = dict(env, nonnull=set(env["nonnull"]) - {tgt.attr})
-                # locals that aliased the old value stay as they were (they are let-bound values)
-                return f"{pad}{line}\n{self.body(rest, env2, ind)}"
+                return "\n".join(pre + [f"{pad}{line}", self.body(rest, env2, ind)])
             if isinstance(tgt, ast.Name):
                 c, t = val
-                if t in ("frac", "cfrac", "none"):
-                    if t == "none":
-                        bad(st, "local bound to None")
-                    loc = dict(env["locals"]); loc[tgt.id] = (c, t)
-                    return self.body(rest, dict(env, locals=loc), ind)
+                loc = dict(env["locals"])
+                nn = set(env["nonnull"]) - {"local:" + tgt.id}
+                if t in ("frac", "cfrac", "none") or t.startswith("set:"):
+                    loc[tgt.id] = (c, t)
+                    return "\n".join(pre + [self.body(rest, dict(env, locals=loc, nonnull=nn), ind)])
                 v = f"v_{tgt.id}"
-                loc = dict(env["locals"]); loc[tgt.id] = (v, t)
-                return f"{pad}let {v} := {c}\n{self.body(rest, dict(env, locals=loc), ind)}"
+                loc[tgt.id] = (v, t)
+                return "\n".join(pre + [f"{pad}let {v} : {LEAN_T[t]} := {c}",
+                                        self.body(rest, dict(env, locals=loc, nonnull=nn), ind)])
             bad(st, "assignment target")
         if isinstance(st, ast.Expr) and isinstance(st.value, ast.Call):
             call = st.value
             f = call.func
-            if call.keywords:
-                bad(st, "keyword arguments in a call")
-            if is_self(f, "on_phase_change") and len(call.args) == 2:
+            if is_self(f, "on_phase_change") and len(call.args) == 2 and not call.keywords:
                 a, b = self.ex(call.args[0], env), self.ex(call.args[1], env)
                 if a[1] != "phase" or b[1] != "phase":
                     bad(st, "on_phase_change arguments")
+                ctx["pure"] = False
                 return f"{pad}let evs := evs ++ [Ev.change {a[0]} {b[0]}]\n{self.body(rest, env, ind)}"
-            if is_self(f, "on_senescence") and len(call.args) == 1:
-                a = self.ex(call.args[0], env)
-                if a[1] != "reason":
-                    bad(st, "on_senescence argument")
-                return f"{pad}let evs := evs ++ [Ev.senescence {a[0]}]\n{self.body(rest, env, ind)}"
+            if is_self(f, "on_senescence") and len(call.args) == 1 and not call.keywords:
+                a = self.coerce(self.ex(call.args[0], env), "reason", st, "on_senescence argument")
+                ctx["pure"] = False
+                return f"{pad}let evs := evs ++ [Ev.senescence {a}]\n{self.body(rest, env, ind)}"
             if is_self(f) and f.attr in self.fns:
-                ps = self.sig(f.attr)
-                if len(call.args) != len(ps):
-                    bad(st, f"call of {f.attr} with {len(call.args)} arguments (defaults are not supported)")
-                args = []
-                for a, (_, pt) in zip(call.args, ps):
-                    c, t = self.ex(a, env)
-                    if t != pt:
-                        bad(st, f"argument of type {t} for a {pt} parameter of {f.attr}")
-                    args.append(c if " " not in c else f"({c})")
-                self.calls.setdefault(self.cur, set()).add(f.attr)
-                if f.attr not in self.needed:
-                    self.needed.append(f.attr)
-                app = " ".join([f"Tr.{lname(f.attr)}", "cfg", "s", "evs"] + args)
-                # a call may change any field: nothing stays known non-null
-                env2 = dict(env, nonnull=set())
+                d, app = self.call_args(f.attr, call, env)
+                ctx["calls"].add(f.attr)
+                if d["pure"]:
+                    return self.body(rest, env, ind)          # a pure call whose value is discarded does nothing
+                ctx["pure"] = False
+                env2 = dict(env, nonnull={k for k in env["nonnull"] if k.startswith("local:")})
                 return (f"{pad}let r := {app}\n{pad}let s : State := r.1\n{pad}let evs : List Ev := r.2.1\n"
                         f"{self.body(rest, env2, ind)}")
             bad(st, f"call {ast.unparse(f)}(...)")
         bad(st, f"statement {type(st).__name__}")
 
-    # ---------------------------------------------------------------------------------------------- methods
     def check_log_event(self):
         fn = self.fns.get("_log_event")
         if fn is None:
@@ -454,122 +811,124 @@ class Translator:
             if isinstance(n, ast.Call) and is_self(n.func):
                 bad(n, f"_log_event calls self.{n.func.attr}")
 
-    def method(self, m):
-        self.cur = m
-        ps = self.sig(m)
-        locs = {}
-        for name, t in ps:
-            locs[name] = ("()" if t == "str" else f"p_{name}", t)
-        env = {"locals": locs, "nonnull": set()}
-        return self.body(self.fns[m].body, env, 2)
+
+HEAD = ("import Operon.Model.Telomere\n"
+        "/- GENERATED by harness/vf/extract/py2lean_telomere.py from operon_ai/state/telomere.py on every run; do not edit.\n"
+        "   Each definition is the translation of the Python method of the same name (see the translator for the\n"
+        "   supported subset).  `untranslatable \"...\"` marks a method that left the subset: its agreement theorem\n"
+        "   c09_translation_agrees_<method> then fails. -/\n"
+        "namespace Operon.Telomere\n"
+        "set_option linter.unusedVariables false\n\n")
 
 
-def render(src: str) -> tuple[str, dict]:
+def public_sig(m):
+    return "".join(f" (p_{i} : {LEAN_T[t]})" for i, t in enumerate(FIXED.get(m, [])))
+
+
+def fallback(why: str) -> str:
+    out = HEAD
+    w = why.replace('"', "'").replace("\\", "/")[:300]
+    for m in PUBLIC:
+        out += (f"/-- translation of `Telomere.{m}` -/\n@[simp] def Tr.{lname(m)} (cfg : Cfg) (s : State) (evs : List Ev)"
+                f"{public_sig(m)} : State × List Ev × Ret :=\n    untranslatable \"{w}\"\n\n")
+    return out + "end Operon.Telomere\n"
+
+
+def render(src: str, mod=None) -> tuple[str, dict]:
     info = {"unsupported": {}, "methods": []}
-    head = ("import Operon.Model.Telomere\n"
-            "/- GENERATED by harness/vf/extract/py2lean_telomere.py from operon_ai/state/telomere.py on every run; do not edit.\n"
-            "   Each definition is the translation of the Python method of the same name (see the translator for the\n"
-            "   supported subset).  `untranslatable \"...\"` marks a method that left the subset: its agreement theorem\n"
-            "   c09_translation_agrees_<method> then fails. -/\n"
-            "namespace Operon.Telomere\n"
-            "set_option linter.unusedVariables false\n\n")
     try:
-        tr = Translator(src)
+        tr = Translator(src, mod)
         tr.check_log_event()
-        glob_err = None
     except (Unsupported, SyntaxError) as e:
-        tr, glob_err = None, str(e)
-    bodies, sigs = {}, {}
-    if tr is not None:
-        tr.needed = list(PUBLIC)
-        i = 0
-        while i < len(tr.needed):
-            m = tr.needed[i]
-            i += 1
-            try:
-                sigs[m] = tr.sig(m)
-                bodies[m] = tr.method(m)
-            except Unsupported as e:
-                info["unsupported"][m] = str(e)
-                bodies[m] = None
-                sigs.setdefault(m, None)
-            except RecursionError:
-                info["unsupported"][m] = "recursion"
-                bodies[m] = None
-        # callees first; recursion among translated methods -> untranslatable
-        order, state = [], {}
+        info["unsupported"] = {m: str(e) for m in PUBLIC}
+        return fallback(str(e)), info
+    for m in PUBLIC:
+        try:
+            tr.info(m)
+        except Unsupported as e:
+            info["unsupported"][m] = str(e)
+        except RecursionError:
+            info["unsupported"][m] = "recursion"
+            tr.done[m] = {"error": "recursion", "own": True}
+    for name, d in tr.done.items():
+        if "error" in d:
+            info["unsupported"].setdefault(name, d["error"])
+    # emission order: callees first
+    order, seen = [], set()
 
-        def visit(m):
-            if state.get(m) == 2:
-                return
-            if state.get(m) == 1:
-                info["unsupported"][m] = "recursion among methods"
-                bodies[m] = None
-                return
-            state[m] = 1
-            for c in sorted(tr.calls.get(m, ())):
+    def visit(m):
+        if m in seen:
+            return
+        seen.add(m)
+        d = tr.done.get(m)
+        if d and "error" not in d:
+            for c in sorted(d["calls"]):
                 visit(c)
-            state[m] = 2
-            order.append(m)
-        for m in tr.needed:
-            visit(m)
-    else:
-        order = list(PUBLIC)
-        for m in PUBLIC:
-            info["unsupported"][m] = glob_err
-            bodies[m] = None
-            sigs[m] = None
-    # fixed signatures of the public methods (what the agreement theorems expect), whatever the source says
-    FIXED = {"tick": [("cost", "nat")], "renew": [("amount", "onat"), ("reset_errors", "bool")],
-             "trigger_apoptosis": [("reason", "str")]}
-    out = head
-    # a method that calls an untranslatable one is untranslatable as well
-    changed = True
-    while changed and tr is not None:
-        changed = False
-        for m in order:
-            if bodies.get(m) is not None and any(bodies.get(c) is None for c in tr.calls.get(m, ())):
-                bodies[m] = None
-                info["unsupported"][m] = "calls an untranslatable method"
-                changed = True
+        order.append(m)
+    for m in PUBLIC:
+        visit(m)
+    names = {}
+    out = HEAD
     for m in order:
-        ps = sigs.get(m)
-        if m in PUBLIC:
-            want = FIXED.get(m, [])
-            if ps is None or [t for _, t in ps] != [t for _, t in want]:
-                if bodies.get(m) is not None:
-                    info["unsupported"][m] = f"signature {ps} differs from the modelled one"
-                    bodies[m] = None
-                ps = want
-        if ps is None:
-            continue          # an untranslatable private helper: its callers are already marked
-        params = "".join(f" (p_{n} : {LEAN_T[t]})" for n, t in ps)
-        out += f"/-- translation of `Telomere.{m}` -/\n"
-        out += f"def Tr.{lname(m)} (cfg : Cfg) (s : State) (evs : List Ev){params} : State × List Ev × Ret :=\n"
-        if bodies.get(m) is None:
-            why = info["unsupported"].get(m, "unsupported").replace('"', "'").replace("\\", "/")
-            out += f'    untranslatable "{why}"\n\n'
-        else:
-            out += bodies[m] + "\n\n"
+        d = tr.done.get(m)
+        ln = lname(m)
+        if names.setdefault(ln, m) != m:          # `_start` and `start` would collide
+            info["unsupported"][m] = f"name clash on Tr.{ln}"
+            d = {"error": "name clash"}
+        if d is None or "error" in d:
+            if m not in PUBLIC:
+                continue                            # its callers are already marked untranslatable
+            why = info["unsupported"].get(m, d.get("error", "unsupported") if d else "unsupported")
+            w = why.replace('"', "'").replace("\\", "/")
+            out += (f"/-- translation of `Telomere.{m}` -/\n@[simp] def Tr.{ln} (cfg : Cfg) (s : State) (evs : List Ev)"
+                    f"{public_sig(m)} : State × List Ev × Ret :=\n    untranslatable \"{w}\"\n\n")
+            info["methods"].append(m)
+            continue
+        params = "".join(f" (p_{n} : {LEAN_T[t]})" for n, t in d["params"])
+        out += f"/-- translation of `Telomere.{m}`{' (pure)' if d['pure'] else ''} -/\n"
+        out += (f"@[simp] def Tr.{ln} (cfg : Cfg) (s : State) (evs : List Ev){params} : "
+                f"State × List Ev × {LEAN_T[d['rtype']]} :=\n{d['code']}\n\n")
         info["methods"].append(m)
-    out += "end Operon.Telomere\n"
-    return out, info
+    return out + "end Operon.Telomere\n", info
+
+
+def elaborates(lean_dir: Path, text: str) -> tuple[bool, str]:
+    """does the generated file build?  (checked before it replaces the previous one)"""
+    try:
+        with tempfile.NamedTemporaryFile("w", suffix=".lean", delete=False, dir="/tmp") as f:
+            f.write(text)
+            tmp = f.name
+        p = subprocess.run(["lake", "env", "lean", tmp], cwd=str(lean_dir), capture_output=True, text=True, timeout=300)
+        os.unlink(tmp)
+        errs = [l for l in (p.stdout + p.stderr).splitlines() if "error" in l]
+        return p.returncode == 0 and not errs, "; ".join(errs)[:300]
+    except Exception as e:  # noqa
+        return False, repr(e)
 
 
 def run(repo: Path, lean_dir: Path, write_if_changed) -> list[dict]:
+    path = Path(repo) / REL
     try:
-        src = (Path(repo) / REL).read_text()
+        src = path.read_text()
     except OSError:
         src = ""
-    text, info = render(src)
-    changed = write_if_changed(Path(lean_dir) / "Operon/Gen/TelomereTranslated.lean", text)
+    mod = load_module(path) if src else None
+    text, info = render(src, mod)
+    target = Path(lean_dir) / "Operon/Gen/TelomereTranslated.lean"
+    if not (target.exists() and target.read_text() == text):
+        # the model must be built for the check; it is (the caller holds the build lock and builds right after)
+        subprocess.run(["lake", "build", "Operon.Model.Telomere"], cwd=str(lean_dir), capture_output=True, text=True)
+        ok, why = elaborates(Path(lean_dir), text)
+        if not ok:
+            info["unsupported"] = {m: f"generated code does not elaborate: {why}" for m in PUBLIC}
+            text = fallback(f"generated code does not elaborate: {why}")
+    changed = write_if_changed(target, text)
     return [{"id": "py2lean-telomere", "facts_changed": bool(changed), "methods": info["methods"],
-             "unsupported": info["unsupported"]}]
+             "unsupported": info["unsupported"], "module_evaluated": mod is not None}]
 
 
 if __name__ == "__main__":
-    import sys
     root = Path(sys.argv[1] if len(sys.argv) > 1 else "/repo")
-    t, i = render((root / REL).read_text())
+    t, i = render((root / REL).read_text(), load_module(root / REL))
     print(t)
     print(i, file=sys.stderr)
